@@ -1032,7 +1032,7 @@ def sig_of(obs):
 def gen_conn(ctx, confs):
     rng = ctx.rng
     cases = []           # (conf index, data, marks)
-    n = 420 if ctx.quick else 3000
+    n = 420 if ctx.quick else 8000
     for _ in range(n):
         ci = rng.randrange(len(confs))
         data, marks = conn_pipeline(rng, big=not ctx.quick or rng.random() < 0.3)
@@ -1073,7 +1073,7 @@ def run_conn(ctx):
             jobs.append((k, ci, kind, segs, gap))
     # exhaustive small scope: EVERY segmentation of the bytes around two message boundaries
     # (end of a chunked body | empty line | next request line; head | Content-Length body | next request)
-    ex_n = 0
+    ex_n, ex_k = 0, []
     for base, centre in ((b"POST /echo.pl HTTP/1.1\r\nHost: a\r\nTransfer-Encoding: chunked\r\n\r\n3\r\nabc\r\n0\r\n\r\n"
                           b"\r\nGET /a.txt HTTP/1.1\r\nHost: a\r\n\r\n", b"0\r\n\r\n\r\nGE"),
                          (b"POST /echo.pl HTTP/1.1\r\nHost: a\r\nContent-Length: 3\r\n\r\nGET"
@@ -1082,15 +1082,16 @@ def run_conn(ctx):
                           b"\r\nGET /a.txt HTTP/1.1\r\nHost: a\r\n\r\n", b"a\r\n\r\n\r\nGET")):
         lo = base.index(centre)
         width = len(centre) - (3 if ctx.quick else 0)
+        ex_k.append(width + 1)
         k = len(allc)
         allc.append((0, base + SENTINEL, [(lo, "window")]))
         for mask in range(1 << (width + 1)):
             pts = [lo + i for i in range(width + 1) if mask >> i & 1]
             jobs.append((k, 0, "exhaustive", cut(base + SENTINEL, pts), 0.004))
             ex_n += 1
-    ctx.exhaustive = {"e2e-conn": "all 2^k segmentations (k = %d cut points, %d connections) of the bytes around three "
+    ctx.exhaustive = {"e2e-conn": "all 2^k segmentations (k = %s cut points, %d connections) of the bytes around three "
                                   "message boundaries (chunked body | empty line | request; head | Content-Length body | request; "
-                                  "GET | empty line | request)" % (width + 1, ex_n)}
+                                  "GET | empty line | request)" % ("/".join(map(str, ex_k)), ex_n)}
     lines = ["conn %d %d %d %d %d %s" % (confs[ci]["bits"], confs[ci]["maxfield"], confs[ci]["maxka"],
                                          confs[ci]["kaidle"], confs[ci]["maxsize"], C.hx(data)) for ci, data, _ in allc]
     if not ctx.model_ok:
@@ -1140,7 +1141,9 @@ def run_conn(ctx):
     one_ok = {}
     LONE_CR = ("outcome depends on TCP segmentation: the CRLF of an empty line before a keep-alive request, cut "
                "between CR and LF, is answered 400 + close (uncut or cut elsewhere: skipped)")
-    for job, ob in zip(jobs, obs):
+    # shortest streams first, so that the replay recorded for a violation is the smallest failing input
+    # (stable: the uncut stream of a case stays in front of its other segmentations)
+    for job, ob in sorted(zip(jobs, obs), key=lambda jo: len(allc[jo[0][0]][1])):
         k, ci, kind, segs, gap = job
         data = allc[k][1]
         items, phase, skip = expects[k]
